@@ -116,6 +116,7 @@ type fnTrans struct {
 	params map[string]Val
 	paramLV map[string]*LVal
 	retBlocks []string
+	retPos    []string
 	declared map[string]bool
 	strict bool
 	freeVarVals map[string]Val
